@@ -305,6 +305,10 @@ OUTCOMES = {
     'disabled': (['>>> # DISABLE_DOCTEST', '>>> mark("{id}")', '>>> raise ValueError("v")'], 'disabled', True),
     'disabled_script': (['>>> # SCRIPT', '>>> mark("{id}")'], 'disabled', True),
     'comment_only': (['>>> # just a comment'], 'skipped', False),
+    # fails before any of its code has run: a directive that cannot be interpreted opens the doctest
+    'fail_bad_directive': (['>>> # xdoctest: +REQUIRES(notatag_zz)', '>>> mark("{id}")'], 'failed', False),
+    'fail_bad_directive_after_skip': (['>>> print("never")  # xdoctest: +SKIP', '>>> # a comment only',
+                                       '>>> mark("{id}")  # xdoctest: +REQUIRES(module:too:many:parts)'], 'failed', False),
 }
 
 OUTCOME_PRELUDE = '''import os
